@@ -10,18 +10,22 @@ META = {
               "is parsed by the real str_to_dec/from_str to exactly those digits and b fractional digits (C06 machinery, slice model)",
     "outside_claim": ["the rendering performed inside core::fmt (integer to decimal digits, zero padding to `width`): documented std behaviour",
                       "ToString::to_string is core's blanket impl over Display::fmt with a default Formatter (precision None)",
-                      "serde-as-str: the derive macros route through From<Decimal> for String and TryFrom<String> (checked on the feature MIR call graph in the thorough tier); serde_json is environment",
+                      "serde-as-str: the derived Serialize / Deserialize impls are executed from the MIR compiled with the feature: serialize(d, S) is "
+                      "String::serialize(&String::from(d), S), deserialize(D) is String::deserialize(D) followed by from_str on that very string (Err of the "
+                      "deserializer passed through, parse errors wrapped by Error::custom); the Serializer / Deserializer themselves (serde_json etc.) are environment",
                       "opt-level / LLVM"],
     "assumptions": ["builtin models listed in coverage.builtin_models (observation points at the fmt boundary)"],
 }
 
 
 def configs(ctx):
-    return [("dev", ["core", "main"])]
+    return [("dev", ["core", "main"]), ("dev-feat", ["core", "main"])]
 
 
 def cases(ctx):
     out = [{"id": "render|%s" % k, "kind": k, "weight": 10} for k in ("string_from", "debug", "display")]
+    out.append({"id": "serde|serialize", "kind": "serde_ser", "weight": 3})
+    out.append({"id": "serde|deserialize", "kind": "serde_de", "weight": 3})
     out.append({"id": "templates", "kind": "templates", "weight": 5})
     out.append({"id": "native round trip of boundary values", "kind": "native", "weight": 1})
     return out
@@ -49,6 +53,8 @@ def run_case(ctx, case):
         res.d["distinct"] += ["native-a", "native-b"]
         res.sample({"note": "see cosim: canonical strings of boundary values rendered natively and re-parsed"})
         return res.done()
+    if kind in ("serde_ser", "serde_de"):
+        return run_serde(ctx, res, kind)
     ref = FL.reference_templates(ctx)
     if kind == "string_from":
         f = get_fn(prog, "from", ["Decimal"], "String")
@@ -78,6 +84,113 @@ def run_case(ctx, case):
                 obs = [x for x in o.state.obs if x[0] in ("format", "write_fmt", "int_to_string", "pad_integral")]
                 goal = judge(kind, obs, c, A, p, t_int, t_dec, o)
             res.vc(ctx, name, o.state.constraints(), goal, {"c": c}, {"kind": kind, "p": p})
+    return res.done()
+
+
+def run_serde(ctx, res, kind):
+    """feature serde-as-str: the derive output (serde(into = "String", try_from = "String")) is executed from the feature MIR with the
+    serde traits of String and the (de)serializer as uninterpreted environment"""
+    prog = ctx.program("dev-feat")
+    serde_fn = lambda nm: [f for f in prog.by_last.get(nm, []) if f.src and f.src[0].endswith("src/lib.rs") and "erializer" in " ".join([f.ret or ""] + [t for _, t in f.params])]
+    if kind == "serde_ser":
+        c = serde_fn("serialize")
+        if len(c) != 1:
+            raise Unsupported("derived Serialize::serialize: %d candidates" % len(c))
+        sfrom = get_fn(prog, "from", ["Decimal"], "String")     # the function whose output C07 render|string_from pins down
+        for p in range(19):
+            st = State()
+            d = sym_decimal("c", st, p)
+            cterm = d.fields[0].t
+            seen = {"into": [], "ser": []}
+
+            def c_into(ex, st_, fr, callee, args):
+                if "Into<String>" not in callee:
+                    return NotImplemented
+                seen["into"].append(args[0])
+                return Opaque("String", ("String::from(Decimal)", args[0]))
+
+            def c_ser(ex, st_, fr, callee, args):
+                if not callee.startswith("<String as"):
+                    return NotImplemented
+                a = BI._deref_all(ex, st_, args[0])
+                seen["ser"].append((a, args[1]))
+                return Opaque("ser-result", a)
+            ex = new_executor(ctx, prog, contracts={"into": c_into, "serialize": c_ser})
+            serializer = Opaque("Serializer")
+            outs = ex.explore(start_state(c[0], [ref_to(d), serializer], None, st))
+            res.absorb(ex, outs)
+            ex.encoded_fns.add(sfrom.name)
+            for i, o in enumerate(outs):
+                name = "serde|serialize|p=%d|path%d:%s" % (p, i, o.kind)
+                goal = False
+                v = o.value if o.kind == "return" else None
+                if isinstance(v, Opaque) and v.tag == "ser-result" and isinstance(v.payload, Opaque) and v.payload.tag == "String" \
+                        and len(seen["ser"]) == 1 and seen["ser"][0][1] is serializer:
+                    arg = v.payload.payload[1]
+                    goal = z3.And(T.I(arg.fields[0].t) == cterm, T.B(T.eq(arg.fields[1].t, p)))
+                res.vc(ctx, name, o.state.constraints(), goal, {"c": cterm}, {"kind": kind, "p": p})
+            if len(outs) != 1:
+                res.d["inconclusive"].append("derived serialize: %d paths (expected exactly one)" % len(outs))
+        return res.done()
+    c = serde_fn("deserialize")
+    c = [f for f in c if f.kind == "fn" and "closure" not in f.name]
+    if len(c) != 1:
+        raise Unsupported("derived Deserialize::deserialize: %d candidates" % len(c))
+    en = prog.enums
+    pde = en["ParseDecimalError"]
+    st = State()
+    okd = sym_decimal("c", st, 0)
+    okd = decimal(okd.fields[0], sym_int("p", "u8", st))
+    s_tok = StrV("<string produced by the deserializer>")
+    e_tok = Opaque("deserializer-error")
+    b_de = T.fresh_bool("de_ok")
+    sel = sym_int("from_str_outcome", "u8", st)
+    seen = {"from_str": [], "custom": []}
+
+    def c_de(ex, st_, fr, callee, args):
+        if not callee.startswith("<String as"):
+            return NotImplemented
+        from mir2smt.exec import _Alts
+        return _Alts([(b_de, EnumV("Result", 0, (s_tok,))), (z3.Not(b_de), EnumV("Result", 1, (e_tok,)))])
+
+    def c_from_str(ex, st_, fr, callee, args):
+        if "FromStr" not in callee:
+            return NotImplemented
+        from mir2smt.exec import _Alts
+        a = BI._deref_all(ex, st_, args[0])
+        seen["from_str"].append(a)
+        alts = [(sel.t == 0, EnumV("Result", 0, (okd,)))]
+        for k in range(len(pde)):
+            alts.append((sel.t == k + 1, EnumV("Result", 1, (EnumV("ParseDecimalError", k),))))
+        return _Alts(alts)
+
+    def c_custom(ex, st_, fr, callee, args):
+        return Opaque("Error::custom", args[0])
+    ex = new_executor(ctx, prog, contracts={"deserialize": c_de, "from_str": c_from_str, "custom": c_custom})
+    st.pc.append(sel.t <= len(pde))
+    outs = ex.explore(start_state(c[0], [Opaque("Deserializer")], None, st))
+    res.absorb(ex, outs)
+    kinds = set()
+    for i, o in enumerate(outs):
+        name = "serde|deserialize|path%d:%s" % (i, o.kind)
+        goal = False
+        v = o.value if o.kind == "return" else None
+        if isinstance(v, EnumV) and v.ty == "Result":
+            if v.variant == 0 and isinstance(v.fields[0], Agg):
+                f0 = v.fields[0]
+                goal = z3.And(b_de, sel.t == 0, T.I(f0.fields[0].t) == T.I(okd.fields[0].t), T.I(f0.fields[1].t) == T.I(okd.fields[1].t))
+                kinds.add("ok")
+            elif v.variant == 1 and v.fields[0] is e_tok:
+                goal = z3.Not(b_de)
+                kinds.add("de-err")
+            elif v.variant == 1 and isinstance(v.fields[0], Opaque) and v.fields[0].tag == "Error::custom" and isinstance(v.fields[0].payload, EnumV):
+                goal = z3.And(b_de, sel.t == v.fields[0].payload.variant + 1)
+                kinds.add("parse-err")
+        if seen["from_str"] and not all(a is s_tok for a in seen["from_str"]):
+            goal = False
+        res.vc(ctx, name, o.state.constraints(), goal, {"c": sel.t}, {"kind": kind, "p": 0})
+    if kinds != {"ok", "de-err", "parse-err"}:
+        res.d["inconclusive"].append("derived deserialize: outcome kinds reached %s (vacuity guard expects ok, de-err, parse-err)" % sorted(kinds))
     return res.done()
 
 
@@ -134,6 +247,15 @@ def canonical(c, p):
 
 def replay(ctx, native, v):
     c, p, kind = v["inputs"]["c"], v["info"]["p"], v["info"]["kind"]
+    if kind in ("serde_ser", "serde_de"):
+        # the wiring of the derive output is not observable through a value-level oracle without a concrete (de)serializer: replay with serde_json
+        bad = []
+        for (cc, pp) in [(c if kind == "serde_ser" else 0, p), (-15, 1), (0, 3), (MAXC, 18), (-MAXC, 0), (7, 0)]:
+            line = "5 serde_roundtrip %s" % fmt_dec(cc, pp)
+            obs = native["dev"].ask(line)
+            if obs != "STR \"%s\" OK %d %d" % (canonical(cc, pp), cc, pp):
+                bad.append((line, obs))
+        return {"reproduced": bool(bad), "line": bad[0][0] if bad else "5 serde_roundtrip d:1:0", "observed": bad[:3], "expected": "serde_json::to_string gives the canonical string in quotes and from_str gives the value back", "profile": "dev"}
     op = {"string_from": "string_from", "debug": "debug", "display": "tostr"}[kind]
     line = "5 %s %s" % (op, fmt_dec(c, p))
     obs = native["dev"].ask(line)
@@ -160,6 +282,9 @@ def cosim(ctx, native):
             obs = native["dev"].ask("5 %s %s" % (op, fmt_dec(c, p)))
             if obs != "STR " + wrap % canonical(c, p):
                 raise RuntimeError("%s of (%d, %d): native %r vs canonical %r" % (op, c, p, obs, canonical(c, p)))
+        sj = native["dev"].ask("5 serde_roundtrip %s" % fmt_dec(c, p))
+        if sj != 'STR "%s" OK %d %d' % (canonical(c, p), c, p):
+            raise RuntimeError("serde_json round trip of (%d, %d) gives %r" % (c, p, sj))
         rt = parse_native(native["dev"].ask("5 roundtrip %s" % fmt_dec(c, p)))
         if rt != ("OK", c, p):
             raise RuntimeError("round trip of (%d, %d) gives %r" % (c, p, rt))
